@@ -126,6 +126,12 @@ def unary_probes():
         P.append(("removeKey:fields:" + n, ("arr", [STD("objectFields", STD("objectRemoveKey", o, S(n))),
                                                      STD("objectFieldsAll", STD("objectRemoveKey", o, S(n)))])))
         P.append(("removeKey:value:" + n, STD("objectRemoveKey", o, S(n))))
+        # nothing can read a removed field any more: looking its name up must not evaluate it
+        P.append(("removeKey:get:" + n, STD("get", STD("objectRemoveKey", o, S(n)), S(n), S("dflt"))))
+        P.append(("removeKey:has:" + n, ("arr", [STD("objectHasAll", STD("objectRemoveKey", o, S(n)), S(n)),
+                                                  ("bin", "in", S(n), STD("objectRemoveKey", o, S(n)))])))
+        P.append(("removeKey:redefine:" + n, ("objext", STD("objectRemoveKey", o, S(n)), obj(fld(n, N(7))))))
+        P.append(("removeKey:plus:" + n, idx(("objext", STD("objectRemoveKey", o, S(n)), ("obj", [("field", ("fixed", n), True, ":", None, ("arr", [N(7)]))])), n)))
     P.append(("mapWithKey:pairs", STD("mapWithKey", fn(["k", "v"], ("arr", [V("k"), V("v")])), o)))
     P.append(("mapWithKey:lazy-fn", STD("objectFields", STD("mapWithKey", fn(["k", "v"], ("error", S("called"))), o))))
     P.append(("mapWithKey:value-unused", STD("mapWithKey", fn(["k", "v"], ("bin", "+", V("k"), S("!"))), o)))
@@ -157,6 +163,17 @@ def binary_probes():
          ("assertEqual", STD("assertEqual", o, p))]
     for n in NAMES:
         P.append(("mergePatch:one-field:" + n, STD("get", STD("mergePatch", o, p), S(n), S("absent"))))
+    # an object with a removed key composed with another chain, on either side: every name-set function must agree with the
+    # object model (the removed key is invisible only to lookups that start above the removal, and only in the argument's layers)
+    for n in NAMES:
+        for tag, r in (("right", ("bin", "+", o, STD("objectRemoveKey", p, S(n)))), ("left", ("bin", "+", STD("objectRemoveKey", o, S(n)), p)),
+                       ("twice", STD("objectRemoveKey", ("bin", "+", o, STD("objectRemoveKey", p, S(n))), S(n)))):
+            P.append(("removeKey:%s:names:%s" % (tag, n), ("local", [("bind", "r", r)], ("arr", [
+                STD("objectHas", V("r"), S(n)), STD("objectHasAll", V("r"), S(n)), STD("objectHasEx", V("r"), S(n), FALSE),
+                STD("objectHasEx", V("r"), S(n), TRUE), ("bin", "in", S(n), V("r")), STD("objectFields", V("r")), STD("objectFieldsAll", V("r")),
+                STD("length", V("r"))]))))
+            P.append(("removeKey:%s:get:%s" % (tag, n), ("local", [("bind", "r", r)], STD("get", V("r"), S(n), S("dflt"), FALSE))))
+            P.append(("removeKey:%s:get-all:%s" % (tag, n), ("local", [("bind", "r", r)], STD("get", V("r"), S(n), S("dflt")))))
     return P
 
 
